@@ -187,14 +187,16 @@ PROPS['C16'] = {
 }
 PROPS['C20'] = {
     'level': 'proof',
+    'level_text': 'ONLY the last sentence of the property is decided: the prefix-length guard and the netmask expression of parse_ip_netmask are proved for every u8 prefix length (Kani, blocks cut out of the real function). The option-merging part (Config::merge_file / merge_args / into_config_file) is NOT decided: it type-checks verbatim in Verus but its verification condition exceeds the solver resource limit (DESIGN.md §4 C20).',
     'kani': {
         'files': {'src/main.rs': ['kani/netmask.rs.in']},
         'harnesses': [
             K('__verif_netmask::', 'netmask_for_every_prefix_length', 'parse_ip_netmask blocks (range guard + netmask expression): every u8 prefix length: > 32 => Err, else mask with that many leading ones, never a panic', fns=['main::parse_ip_netmask (blocks: guard, netmask expression)']),
         ],
     },
-    'trusted': ['structopt / serde_yaml produce the Args / ConfigFile values (text parsing not covered)', 'u8::from_str / Ipv4Addr::from_str / str::find in parse_ip_netmask are std parsing, not under contract'],
-    'not_decided': [],
+    'trusted': ['u8::from_str / Ipv4Addr::from_str / str::find in parse_ip_netmask are std parsing, not under contract'],
+    'not_decided': ['precedence command line > file > default for every option; accumulation of list options; round trip through the file form (Config::merge_file, merge_args, into_config_file): Verus resource limit exceeded in z3 and cvc5',
+                    'text parsing by structopt / serde_yaml'],
 }
 
 TABLE_FNS = ['ClaimTable::new', 'ClaimTable::cache', 'ClaimTable::set_claims', 'ClaimTable::remove_claims', 'ClaimTable::lookup', 'ClaimTable::housekeep', 'lemma_.*']
